@@ -837,9 +837,67 @@ func (env *SpecEnv) call(n *ast.CallExpr) sv {
 		}
 		got := shortType(iv.Dyn)
 		return sv{V: c.And(c.Not(iv.IsNil), c.Bool(got == want)), T: boolT}
-	case "dec", "udec":
-		// decimal rendering of an integer as a sequence: uninterpreted but injective-by-construction via tags
-		env.fail("dec() only usable through strtag()")
+	case "isdec":
+		// isdec(s, x): s is the decimal rendering of an integer equal to x
+		v := arg(0)
+		s, ok := v.V.(*StringVal)
+		if !ok {
+			env.fail("isdec of %T", v.V)
+		}
+		if str, isc := concreteString(s); isc {
+			bi, ok := new(big.Int).SetString(str, 10)
+			if !ok || bi.String() != str {
+				return sv{V: c.False(), T: boolT}
+			}
+			x, _ := env.term(arg(1), sv{V: e.idx(0), T: types.Typ[types.Int64]})
+			if x.S.IsBV() {
+				return sv{V: c.Eq(c.BVConst(bi, x.S.W), x), T: boolT}
+			}
+			return sv{V: c.Eq(c.IntConst(bi), x), T: boolT}
+		}
+		if s.Tag == nil || len(s.Tag.Segs) != 1 || s.Tag.Segs[0].Kind != "dec" {
+			return sv{V: c.False(), T: boolT}
+		}
+		x, _ := env.term(arg(1), sv{V: s.Tag.Segs[0].T, T: types.Typ[types.Int64]})
+		if x.S != s.Tag.Segs[0].T.S {
+			env.fail("isdec: sort mismatch")
+		}
+		return sv{V: c.Eq(s.Tag.Segs[0].T, x), T: boolT}
+	case "parse_ok", "parse_i64", "parse_u64":
+		v := arg(0)
+		s, ok := v.V.(*StringVal)
+		if !ok {
+			env.fail("%s of %T", name, v.V)
+		}
+		var t types.Type = types.Typ[types.Int64]
+		if name == "parse_u64" {
+			t = types.Typ[types.Uint64]
+		}
+		so := e.sortOf(t)
+		if str, isc := concreteString(s); isc {
+			// concrete evaluation (replay): strconv semantics, base 10, 64 bits
+			var val *big.Int
+			okp := false
+			if name == "parse_u64" {
+				u, err := strconv.ParseUint(str, 10, 64)
+				okp, val = err == nil, new(big.Int).SetUint64(u)
+			} else {
+				i, err := strconv.ParseInt(str, 10, 64)
+				okp, val = err == nil, big.NewInt(i)
+			}
+			if name == "parse_ok" {
+				return sv{V: c.Bool(okp), T: boolT}
+			}
+			return sv{V: c.NumConst(val, so), T: t}
+		}
+		id := e.strIdent(s)
+		if id == nil {
+			env.fail("%s: string is not a symbolic input", name)
+		}
+		if name == "parse_ok" {
+			return sv{V: c.And(c.App("parse_ok", BoolS, id...), c.Not(c.Eq(s.Len, e.idx(0)))), T: boolT}
+		}
+		return sv{V: c.App(sanitize("parse_val_"+so.SMT()), so, id...), T: t}
 	}
 	// spec functions from the prelude
 	if d, ok := c.SpecFns[name]; ok {
@@ -995,4 +1053,35 @@ func (env *SpecEnv) deepEq(a, b Val, sa, sb *State, depth int) *Term {
 	}
 	env.fail("deepEq of %T", a)
 	return nil
+}
+
+// concreteString returns the Go string when every byte and the length are constants.
+func concreteString(s *StringVal) (string, bool) {
+	if !s.Len.IsConst() || !s.Off.IsConst() || !s.Len.C.IsInt64() || s.Len.C.Int64() > 1<<20 {
+		return "", false
+	}
+	l, ok := s.C.(*ArrLit)
+	if !ok {
+		if s.Len.C.Sign() == 0 {
+			return "", true
+		}
+		return "", false
+	}
+	off, n := int(s.Off.C.Int64()), int(s.Len.C.Int64())
+	b := make([]byte, n)
+	for i := 0; i < n; i++ {
+		if off+i >= len(l.Vals) {
+			f, ok := l.Rest.(*ArrFill)
+			if !ok || !f.Val.IsConst() {
+				return "", false
+			}
+			b[i] = byte(f.Val.C.Uint64())
+			continue
+		}
+		if !l.Vals[off+i].IsConst() {
+			return "", false
+		}
+		b[i] = byte(l.Vals[off+i].C.Uint64())
+	}
+	return string(b), true
 }
